@@ -3,8 +3,10 @@ import re
 
 from . import cxxrun, gen_expr as ge, strings
 
+# `peer2` is an object id that is ALSO the name of a pointer property of the objects owning the bindings (VfWidget::peer2):
+# a bare `peer2` denotes the object with that id, `this.peer2` / `a.peer2` the property
 SOURCES = [("a", "VfWidget"), ("b", "VfWidget"), ("c", "VfSub"), ("spin", "QSpinBox"), ("chk", "QCheckBox"),
-           ("edit", "QLineEdit")]
+           ("edit", "QLineEdit"), ("peer2", "VfSub")]
 OWNER_FREE = [("ival3", ge.INT), ("bval2", ge.BOOL), ("sval2", ge.STR), ("uval2", ge.UINT), ("dval2", ge.DOUBLE)]
 VF_ALL = [(p, t) for t, ps in ge.VF_PROPS.items() for p in ps]
 QT_STATE = {"spin": [("value", ge.INT)], "chk": [("checked", ge.BOOL)], "edit": [("text", ge.STR)]}
@@ -24,7 +26,7 @@ class Binding:
 
 class ExprDoc:
     def __init__(self, rng, n_targets=3, types=None, hostile_strings=False, max_depth=4, kinds=None, profile="dynamic",
-                 void_path_hazard=False, cascade=False):
+                 void_path_hazard=False, cascade=False, gadget_members=False):
         self.rng = rng
         self.objects = [ge.ObjSpec(i, c) for i, c in SOURCES]
         self.targets = ["t%d" % k for k in range(n_targets)]
@@ -52,6 +54,14 @@ class ExprDoc:
                 self.bindings.append(Binding(tg, ge.TARGET_PROP[t], t, prog, src))
                 self.bindings[-1].ill_typed = g.has_void_path
             bound += [(tg, ge.TARGET_PROP[t], t) for t in types]
+            if gadget_members:
+                # grouped (gadget) member bindings are translated by their own code path: same programs, other emitter
+                for prop, t in (("font.bold", ge.BOOL), ("font.pointSize", ge.INT), ("font.family", ge.STR), ("font.italic", ge.BOOL)):
+                    if rng.random() < 0.5:
+                        g.has_void_path = False
+                        prog = g.program(t, rng.choice(kinds) if kinds else None)
+                        self.bindings.append(Binding(tg, prop, t, prog, ge.print_program(prog, rng)))
+                        self.bindings[-1].ill_typed = g.has_void_path
         self.source = self.to_qml()
 
     def to_qml(self, skip=()):
@@ -167,7 +177,7 @@ class ExprDoc:
         names = set(re.findall(r"\beval(\w+)\(\)", header))
         missing = []
         for b in self.bindings:
-            want = b.target[:1].upper() + b.target[1:] + b.prop[:1].upper() + b.prop[1:]
+            want = b.target[:1].upper() + b.target[1:] + "".join(x[:1].upper() + x[1:] for x in b.prop.split("."))
             if want in names:
                 b.func = want
             else:
